@@ -201,7 +201,8 @@ struct Model {
 			if (n > 0 || op == "setlist") {
 				(*o)["M"] = true;
 				(*o)["R"] = false;
-			}
+			} else if (!(*o)["v"].empty())
+				(*o)["R"] = false; // an append of nothing still is an append: what the option holds is its contents from now on
 			if (n == 0)
 				*why = "empty"; // flag handling of empty set/append is left open (see judge)
 			return OK;
@@ -221,7 +222,7 @@ struct Model {
 				return FAIL;
 			}
 			bool list = ((*o)["fl"].get<int>() & F_LIST) != 0;
-			if ((!list && n > 1) || o->contains("sv"))
+			if (o->contains("sv"))
 				return DONTCARE;
 			json nv = json::array();
 			for (auto &v : st["vals"]) {
@@ -234,6 +235,11 @@ struct Model {
 					return FAIL;
 				}
 				nv.push_back(rep);
+			}
+			if (!list) {
+				// a scalar holds one value: every element replaces the one before, the last one stays
+				json last = nv.back();
+				nv = json::array({last});
 			}
 			(*o)["v"] = nv;
 			(*o)["M"] = true;
